@@ -878,6 +878,10 @@ class Interp:
         if isinstance(obj, ExtRef):
             if obj.name == "ast" and hasattr(ast, attr):
                 return getattr(ast, attr)  # syntax-tree classes / constants of the stdlib (pure data definitions)
+            if obj.name in ("inspect.Parameter", "inspect.Signature", "inspect._ParameterKind") and attr.isupper() or (obj.name in ("inspect.Parameter", "inspect.Signature") and attr == "empty"):
+                import inspect as _inspect
+
+                return getattr(getattr(_inspect, obj.name.split(".")[1]), attr)  # constants of the inspect module (parameter kinds, the `empty` marker)
             if obj.name == "re" and attr.isupper():
                 import re as _re
 
@@ -956,6 +960,12 @@ class Interp:
                 return getattr(obj, attr)
             except AttributeError:
                 raise Raised("AttributeError") from None
+        if type(obj).__name__ in ("function", "builtin_function_or_method") and attr in ("__name__", "__qualname__", "__module__", "__doc__"):
+            return getattr(obj, attr)  # a function object synthesised by a rule (e.g. used as a default value)
+        if type(obj).__module__ == "inspect" and type(obj).__name__ in ("Parameter", "Signature", "_ParameterKind"):
+            if attr in ("name", "kind", "default", "annotation", "parameters", "return_annotation", "value", "description"):
+                return getattr(obj, attr)  # plain data of a signature object synthesised by a rule
+            raise Raised("AttributeError") if not hasattr(obj, attr) else AnalysisError(f"attribute `{attr}` of an inspect.{type(obj).__name__} not modelled")
         if type(obj).__module__ == "re" and type(obj).__name__ in ("Pattern", "Match"):
             if attr in ("pattern", "flags", "groups", "groupindex", "string", "pos", "endpos", "lastindex", "lastgroup", "re") and not callable(getattr(obj, attr)):
                 return getattr(obj, attr)
